@@ -48,6 +48,8 @@ struct World {
   std::atomic<int> inside{0};
   std::atomic<int> max_inside{0};
   long plain_counter = 0;  // C04: only ordered by the executor's own happens-before (strand cells)
+  u64 stop2_call = 0, stop2_ret = 0;  // Stop() issued after SoftStop()
+  std::atomic<int> alive_after_stop{0};
   bool serial = false;      // strand: jobs must not overlap
   std::atomic<u64> wait_returned{0};
   std::atomic<int> after_wait{0};
@@ -118,6 +120,9 @@ struct Plan {
   int per;
   int workers;
   int stop_kind;
+  int soft_repeat = 1;        // SoftStop: how many times it is called (a repeated request must change nothing)
+  bool soft_then_stop = false;  // SoftStop: followed by an ordinary Stop() from the same thread
+  bool soft_no_final = false;   // SoftStop: nobody calls Stop() afterwards, the pool has to stop by itself once idle
   u32 stop_delay;
   u32 sub_jit[4];
   bool children;
@@ -130,6 +135,9 @@ Plan MakePlan(Ctx& ctx, bool allow_stop) {
   p.workers = static_cast<int>(ctx.rng.In(1, 3));
   p.stop_kind = allow_stop ? static_cast<int>(ctx.rng.Below(4)) : kNoStop;
   p.stop_delay = ctx.rng.Below(12);
+  p.soft_repeat = static_cast<int>(ctx.rng.In(1, 3));
+  p.soft_then_stop = ctx.rng.Below(4) == 0;
+  p.soft_no_final = !p.soft_then_stop && ctx.rng.Coin();
   for (auto& j : p.sub_jit) {
     j = ctx.rng.Below(4);
   }
@@ -191,7 +199,18 @@ void RunSubmitters(World& w, const Plan& p, yaclib::IExecutor& target, yaclib::F
       if (p.stop_kind == kStop) {
         pool->Stop();
       } else if (p.stop_kind == kSoftStop) {
-        pool->SoftStop();
+        for (int r = 0; r < p.soft_repeat; ++r) {
+          pool->SoftStop();
+          Jitter(1);
+        }
+        if (p.soft_then_stop) {
+          w.stop2_call = Stamp();
+          pool->Stop();
+          if (pool->Alive()) {
+            w.alive_after_stop.fetch_add(1, kRlx);
+          }
+          w.stop2_ret = Stamp();
+        }
       } else {
         pool->HardStop();
       }
@@ -369,10 +388,20 @@ void PoolCase(Ctx& ctx, int force_workers, int force_stop) {
   u64 stop_call = 0, stop_ret = 0;
   RunSubmitters(w, p, *pool, pool.Get(), stop_call, stop_ret);
   u64 final_stop = 0;
-  if (p.stop_kind == kNoStop || p.stop_kind == kSoftStop) {
+  bool self_stopping = p.stop_kind == kSoftStop && p.soft_no_final;
+  if (p.stop_kind == kSoftStop) {
+    ctx.Note("(SoftStop x%d%s%s) ", p.soft_repeat, p.soft_then_stop ? ", then Stop" : "",
+             self_stopping ? ", no Stop afterwards: the pool must stop by itself once idle" : "");
+  }
+  if ((p.stop_kind == kNoStop || p.stop_kind == kSoftStop) && !self_stopping) {
     // SoftStop may already have stopped the pool; either way this makes Wait() terminate
     final_stop = Stamp();
     pool->Stop();
+  } else if (self_stopping) {
+    final_stop = ~u64{0};  // never: a pool that does not stop by itself leaves Wait() parked (deadlock verdict)
+  }
+  if (w.stop2_call != 0 && w.stop2_call < final_stop) {
+    final_stop = w.stop2_call;
   }
   pool->Wait();
   w.wait_returned.store(Stamp(), kRlx);
@@ -421,6 +450,17 @@ void PoolCase(Ctx& ctx, int force_workers, int force_stop) {
             break;
           }
         }
+      }
+    }
+  }
+  ctx.Check(w.alive_after_stop.load(kRlx) == 0, "alive-after-stop", "C08",
+            "Alive() is still true right after Stop() returned (a SoftStop had been requested before)");
+  if (w.stop2_ret != 0) {
+    for (auto& j : w.jobs) {
+      if (j.submitted && j.sub_call > w.stop2_ret) {
+        ctx.Check(j.calls.load(kRlx) == 0, "accepted-after-stop", "C08",
+                  "job %d was submitted (t=%llu) after Stop() had returned (t=%llu) and was Called instead of Dropped", j.id,
+                  (unsigned long long)j.sub_call, (unsigned long long)w.stop2_ret);
       }
     }
   }
